@@ -111,11 +111,11 @@ claim("C10", "DESIGN.md §5 C10",
       "renderLines is compared byte-for-byte with the real file (minus timestamp), loadText with the real loader on the written file and 10 edited variants; gen() on small horizons: file names vs variable counts, saved constraint data reloaded through convenience().",
       "The number parsers of the loader model accept exactly the spellings export writes; file I/O, np.savez/pickle exercised, not proved.")
 claim("C14", "DESIGN.md §5 C14, §11",
-      "Lean 4 refinement proof: the object with lazily built caches and flag resets (generic machine, instantiated for the arc- and sequence-based objects with the heuristics' reset sites) gives the same replies as the cache-free specification on every call history + correspondence of flags/outcomes/state + twin-run oracle on real objects",
-      "Proved for every call history (queries in any number and order, any number of heuristic runs): every reply of the cached object equals the reply computed from the instance state alone; asking twice gives equal results; queries before or between heuristic runs change neither the instance, the stored solution nor any later reply; "
-      "the modelled reset sites of the arc- and sequence-based heuristics cover every change of the instance (sequence: under unique node names, which the graph API guarantees; refuted without them). "
-      "The machine is tied to the code by comparing, on every generated history, heuristic outcomes, which caches are filled, final graph and stored solution; the property itself is re-checked on real objects by the twin-run oracle (history with vs without earlier queries, every query twice, fresh-object query orders).",
-      "Query kinds of the machine: size / objective / constraints (index lookups and QUBO are compositions of these in the real code).")
+      "Lean 4 refinement proofs at two levels: a flag-level model of the arc- and sequence-based objects (VrpModel/CacheFlags.lean: one function per Python method with its flag reads/writes in order, the heuristics' reset sites at the code's program points, partial state kept when the heuristic raises; operations size / tuple->index / index->tuple / objective / constraints / QUBO / heuristic) refines the cache-free specification on every call history; plus the earlier generic memo machine; call-by-call correspondence of replies and flags + twin-run oracle on real objects",
+      "Proved for every call history (queries in any number and order, any number of heuristic runs, also after a raising heuristic): every reply of the object with flags and caches equals the reply computed from the instance state alone (arc_refines, seq_refines; coherence invariant: flag set => cache equals the fresh value); asking twice gives equal results and changes neither instance nor solution (…_query_idempotent); deleting all queries changes no heuristic reply, no later reply, not the final instance nor the stored solution (…_queries_irrelevant); a successful flag-level heuristic returns exactly what the instance-level heuristic of C09 returns (…_makeFeasible_connection). "
+      "Expressiveness is demonstrated inside Lean: variants with a forgotten objective flag at both sites / at the loop head only, with no reset at the loop head, and a sequence _ensure_exit_arc without resets provably FAIL refinement on concrete histories (v1b/v1c/v2_not_refines, seq_exit_noreset_not_refines), while forgetting the flag at the exit-arc site only is provably harmless (v1_equivalent). "
+      "The model is tied to the code call by call: reply, all flags after every call, final graph, vehicles and stored solution, on random, systematic (formulation x query kind) and raising histories; the property itself is re-checked on real objects by the twin-run oracle (history with vs without earlier queries, every query twice, fresh-object query orders).",
+      "Route decoding is not an operation of the flag machine (reads no cache); path-based object (no caches) by the oracle only; out-of-range lookup arguments outside the model.")
 
 claim("C16", "DESIGN.md §5 C16, §11",
       "Lean 4 theorems on an explicit object store (source unchanged, non-interference, order independence of request interleavings, getter idempotence) + differential test on real objects (deep snapshots, identity disjointness, fingerprints under all 6 orders)",
